@@ -53,7 +53,9 @@ def _tss(t):
 def _mode(m):
     from nitypes.waveform import SampleIntervalMode
     return {0: SampleIntervalMode.NONE, 1: SampleIntervalMode.REGULAR, 2: SampleIntervalMode.IRREGULAR,
-            3: 3, 4: "NONE", 5: None}[m]
+            3: 3, 4: "NONE", 5: None,
+            # the raw VALUES of the enum members are not modes either
+            6: 1, 7: 0, 8: True, 9: 2, 10: 1.0}[m]
 
 
 def _report(t):
@@ -229,7 +231,7 @@ def gen_cases(rng, tier):
     members = _member_kinds()
     tsss = _tss_kinds()
     # full product over member kinds with the timestamps kinds that matter for the mode, plus a sample of the rest
-    for mode in (0, 1, 2, 3, 4, 5):
+    for mode in (0, 1, 2, 3, 4, 5, 6, 7, 8, 9, 10):
         mem = members if mode <= 2 else [members[0], members[1], members[2], members[-1]]
         for ts in mem:
             for off in mem:
